@@ -81,7 +81,13 @@ func nativeReplay(cs *CheckSpec, specs map[string]*HarnessSpec, vecs []*Violatio
 			groups[pkg] = g
 		}
 		g.funcs[v.Harness] = true
-		g.vecs = append(g.vecs, replayVec{Idx: i, Harness: v.Harness, Inputs: v.Inputs, Params: v.Params, Synctest: h != nil && h.Synctest})
+		tries := 1
+		if h != nil && h.ReplayTries > 1 {
+			tries = h.ReplayTries // code under test draws from math/rand: any reproducing run confirms
+		}
+		for t := 0; t < tries; t++ {
+			g.vecs = append(g.vecs, replayVec{Idx: i, Harness: v.Harness, Inputs: v.Inputs, Params: v.Params, Synctest: h != nil && h.Synctest})
+		}
 	}
 	out := make([]*replayResult, len(vecs))
 	var pkgs []string
@@ -97,7 +103,11 @@ func nativeReplay(cs *CheckSpec, specs map[string]*HarnessSpec, vecs []*Violatio
 		}
 		for _, r := range res {
 			rr := r
-			out[r.Idx] = &rr
+			prev := out[r.Idx]
+			// with several tries keep the first result that confirms / matches
+			if prev == nil || !(prev.confirms(vecs[r.Idx]) || (vecs[r.Idx].Label == "witness" && prev.matchesWitness(vecs[r.Idx]))) {
+				out[r.Idx] = &rr
+			}
 		}
 	}
 	for i := range out {
